@@ -162,9 +162,13 @@ where
                 let suffix_len =
                     common_suffix_len(old, prev_op.old_range(), new, this_op.new_range());
                 if suffix_len > 0 {
+                    #[cfg(similar_verif)]
+                    crate::verif::hit(6);
                     if let Some(DiffTag::Equal) = ops.get(pointer + 1).map(|x| x.tag()) {
                         ops[pointer + 1].grow_left(suffix_len);
                     } else {
+                        #[cfg(similar_verif)]
+                        crate::verif::hit(7);
                         ops.insert(
                             pointer + 1,
                             DiffOp::Equal {
@@ -178,6 +182,8 @@ where
                     ops[pointer - 1].shrink_left(suffix_len);
 
                     if ops[pointer - 1].is_empty() {
+                        #[cfg(similar_verif)]
+                        crate::verif::hit(8);
                         ops.remove(pointer - 1);
                         pointer -= 1;
                     }
@@ -195,6 +201,8 @@ where
                 let suffix_len =
                     common_suffix_len(old, prev_op.old_range(), new, this_op.new_range());
                 if suffix_len != 0 {
+                    #[cfg(similar_verif)]
+                    crate::verif::hit(9);
                     if let Some(DiffTag::Equal) = ops.get(pointer + 1).map(|x| x.tag()) {
                         ops[pointer + 1].grow_left(suffix_len);
                     } else {
@@ -226,16 +234,24 @@ where
             // Swap the Delete and Insert
             (DiffTag::Insert, DiffTag::Delete) | (DiffTag::Delete, DiffTag::Insert) => {
                 ops.swap(pointer - 1, pointer);
+                #[cfg(similar_verif)]
+                crate::verif::hit(10);
+                #[cfg(similar_verif)]
+                crate::algorithms::compact::verif_repair_swapped(ops, pointer - 1);
                 pointer -= 1;
             }
             // Merge the two ranges
             (DiffTag::Insert, DiffTag::Insert) => {
                 ops[pointer - 1].grow_right(this_op.new_range().len());
+                #[cfg(similar_verif)]
+                crate::verif::hit(11);
                 ops.remove(pointer);
                 pointer -= 1;
             }
             (DiffTag::Delete, DiffTag::Delete) => {
                 ops[pointer - 1].grow_right(this_op.old_range().len());
+                #[cfg(similar_verif)]
+                crate::verif::hit(12);
                 ops.remove(pointer);
                 pointer -= 1;
             }
@@ -264,6 +280,8 @@ where
                 let prefix_len =
                     common_prefix_len(old, next_op.old_range(), new, this_op.new_range());
                 if prefix_len > 0 {
+                    #[cfg(similar_verif)]
+                    crate::verif::hit(13);
                     if let Some(DiffTag::Equal) = pointer
                         .checked_sub(1)
                         .and_then(|x| ops.get(x))
@@ -271,6 +289,8 @@ where
                     {
                         ops[pointer - 1].grow_right(prefix_len);
                     } else {
+                        #[cfg(similar_verif)]
+                        crate::verif::hit(14);
                         ops.insert(
                             pointer,
                             DiffOp::Equal {
@@ -285,6 +305,8 @@ where
                     ops[pointer + 1].shrink_right(prefix_len);
 
                     if ops[pointer + 1].is_empty() {
+                        #[cfg(similar_verif)]
+                        crate::verif::hit(15);
                         ops.remove(pointer + 1);
                     }
                 } else if ops[pointer + 1].is_empty() {
@@ -300,6 +322,8 @@ where
                 let prefix_len =
                     common_prefix_len(old, next_op.old_range(), new, this_op.new_range());
                 if prefix_len > 0 {
+                    #[cfg(similar_verif)]
+                    crate::verif::hit(16);
                     if let Some(DiffTag::Equal) = pointer
                         .checked_sub(1)
                         .and_then(|x| ops.get(x))
@@ -333,19 +357,78 @@ where
             // Swap the Delete and Insert
             (DiffTag::Insert, DiffTag::Delete) | (DiffTag::Delete, DiffTag::Insert) => {
                 ops.swap(pointer, pointer + 1);
+                #[cfg(similar_verif)]
+                crate::verif::hit(17);
+                #[cfg(similar_verif)]
+                crate::algorithms::compact::verif_repair_swapped(ops, pointer);
                 pointer += 1;
             }
             // Merge the two ranges
             (DiffTag::Insert, DiffTag::Insert) => {
                 ops[pointer].grow_right(next_op.new_range().len());
+                #[cfg(similar_verif)]
+                crate::verif::hit(18);
                 ops.remove(pointer + 1);
             }
             (DiffTag::Delete, DiffTag::Delete) => {
                 ops[pointer].grow_right(next_op.old_range().len());
+                #[cfg(similar_verif)]
+                crate::verif::hit(19);
                 ops.remove(pointer + 1);
             }
             _ => unreachable!("unexpected tag"),
         }
     }
     pointer
+}
+
+/// Attribution switch for a known finding (simulation builds only): when the
+/// harness enables it, the two ops that were just swapped (now at `first` and
+/// `first + 1`) get the index they carry for the other side recomputed.
+#[cfg(similar_verif)]
+pub(crate) fn verif_repair_swapped(ops: &mut [DiffOp], first: usize) {
+    if !crate::verif::swap_repair() {
+        return;
+    }
+    match (ops[first], ops[first + 1]) {
+        (
+            DiffOp::Delete {
+                old_index, old_len, ..
+            },
+            DiffOp::Insert {
+                new_index, new_len, ..
+            },
+        ) => {
+            ops[first] = DiffOp::Delete {
+                old_index,
+                old_len,
+                new_index,
+            };
+            ops[first + 1] = DiffOp::Insert {
+                old_index: old_index + old_len,
+                new_index,
+                new_len,
+            };
+        }
+        (
+            DiffOp::Insert {
+                new_index, new_len, ..
+            },
+            DiffOp::Delete {
+                old_index, old_len, ..
+            },
+        ) => {
+            ops[first] = DiffOp::Insert {
+                old_index,
+                new_index,
+                new_len,
+            };
+            ops[first + 1] = DiffOp::Delete {
+                old_index,
+                old_len,
+                new_index: new_index + new_len,
+            };
+        }
+        _ => {}
+    }
 }
